@@ -11,6 +11,7 @@ from ..excflow import ExcFlow, named_groups
 from ..tables import tables_of
 from ..mutate import Mutant, in_func
 from . import c10
+from ..report import Result
 
 ID = 'C08'
 EXPLANATION = (
@@ -463,6 +464,107 @@ def rule_r2_r7(prog, res, tier):
         res.counts[k] = v
 
 
+# ------------------------------------------------------------------- R8
+def rule_r8(prog, res):
+    res.rule('R8', 'as_timezone is applied by conversion to aware values and '
+             'by attachment to naive ones')
+    inb = prog.cls('spyne.protocol._inbase:InProtocolBase')
+    n = 0
+    for nm, f in sorted(inb.methods.items()):
+        if not nm.startswith('datetime_from'):
+            continue
+        for a in walk_no_defs(f.node):
+            if not (isinstance(a, ast.Assign) and isinstance(
+                    a.value, ast.Call) and call_name(a.value) in (
+                    '_parse_datetime_iso_match',) and len(a.targets) == 1 and
+                    isinstance(a.targets[0], ast.Name)):
+                continue
+            var = a.targets[0].id
+            aware = any(k.arg == 'tz' for k in a.value.keywords) or \
+                len(a.value.args) > 1
+            blk = parent(a)
+            body = None
+            for fld in ('body', 'orelse', 'finalbody'):
+                if a in getattr(blk, fld, []):
+                    body = getattr(blk, fld)
+            if body is None:
+                continue
+            n += 1
+            after = body[body.index(a) + 1:]
+            ops = []
+            for st in after:
+                for c in calls_in(st):
+                    if isinstance(c.func, ast.Attribute) and isinstance(
+                            c.func.value, ast.Name) and \
+                            c.func.value.id == var:
+                        if c.func.attr == 'astimezone':
+                            ops.append(('astimezone', c))
+                        elif c.func.attr == 'replace' and any(
+                                k.arg == 'tzinfo' for k in c.keywords):
+                            ops.append(('replace(tzinfo=)', c))
+            where = '%s:%d' % (f.module.relpath, a.lineno)
+            bad = [(o, c) for o, c in ops if (o == 'astimezone') != aware]
+            res.ob('R8', where, '%s: %s value (%s) then %s' % (
+                nm, 'aware' if aware else 'naive', unparse(a.value)[:50],
+                [o for o, _ in ops] or 'no zone operation'),
+                'VIOLATED' if bad else 'ok', nontrivial=True)
+            for o, c in bad:
+                res.finding('R8', '%s|%s|%s' % (
+                    f.qualname, 'aware' if aware else 'naive', o),
+                    '%s:%d' % (f.module.relpath, c.lineno),
+                    '%s applies %s to the %s value parsed from the literal: '
+                    '%s' % (f.qualname, o, 'aware' if aware else 'naive',
+                            'astimezone() on a naive datetime reads it in '
+                            'the server\'s local zone, so the wall-clock '
+                            'fields of an offset-less literal change'
+                            if not aware else
+                            'replace(tzinfo=) discards the offset the '
+                            'literal carried'))
+    res.floor('R8', 'parsed datetime values with a zone decision', n, 3)
+
+
+# ------------------------------------------------------------------- R9
+B64_READERS = ('b64decode', 'urlsafe_b64decode', 'a2b_base64',
+               'standard_b64decode', 'decodebytes')
+
+
+def rule_r9(prog, res):
+    res.rule('R9', 'base64 readers accept the whole XSD lexical space '
+             '(embedded whitespace): no strict-alphabet mode')
+    n = 0
+    for mq in ('spyne.model.binary', 'spyne.protocol._inbase',
+               'spyne.protocol.soap.mime'):
+        m = prog.module(mq, required=False)
+        if m is None:
+            continue
+        for f in m.functions.values():
+            for c in calls_in(f.node):
+                if call_name(c) not in B64_READERS:
+                    continue
+                n += 1
+                strict = [k for k in c.keywords if k.arg in (
+                    'validate', 'strict_mode') and not (
+                    isinstance(k.value, ast.Constant) and
+                    k.value.value is False)]
+                where = '%s:%d' % (m.relpath, c.lineno)
+                res.ob('R9', where, '%s: %s' % (f.qualname, unparse(c)[:60]),
+                       'VIOLATED' if strict else 'ok')
+                if strict:
+                    res.finding('R9', '%s|%s|strict' % (
+                        f.qualname, call_name(c)), where,
+                        '%s decodes base64 with %s: line breaks and spaces, '
+                        'which xs:base64Binary allows and MIME-style '
+                        'encoders emit every 76 characters, are rejected' % (
+                            f.qualname, unparse(strict[0])))
+    res.floor('R9', 'base64 decode sites', n, 3)
+
+
+def rule_r10(prog, res):
+    from . import c02
+    res.share('R10', 'the binary sibling codec keeps integers in msgpack\'s '
+              'native window (C02-R4)', 'C02', c02.rule_r4, prog, Result)
+
+
 def run(prog, res, tier):
     res.run_rule(rule_r1, prog, res)
     res.run_rule(rule_r2_r7, prog, res, tier)
@@ -470,6 +572,9 @@ def run(prog, res, tier):
     res.run_rule(rule_r4, prog, res)
     res.run_rule(rule_r5, prog, res)
     res.run_rule(rule_r6, prog, res)
+    res.run_rule(rule_r8, prog, res)
+    res.run_rule(rule_r9, prog, res)
+    res.run_rule(rule_r10, prog, res)
 
 
 _I = 'spyne/protocol/_inbase.py'
@@ -478,6 +583,26 @@ _B = 'spyne/model/binary.py'
 _S = 'spyne/protocol/soap/soap11.py'
 
 MUTANTS = [
+    Mutant('naive-literal-converted', 'R8', 'fire', _I,
+           in_func('InProtocolBase.datetime_from_unicode_iso',
+                   "retval = retval.replace(tzinfo=astz)",
+                   "retval = retval.astimezone(astz)"), 'naive|astimezone'),
+    Mutant('aware-literal-retagged', 'R8', 'fire', _I,
+           in_func('InProtocolBase.datetime_from_unicode_iso',
+                   "retval = retval.astimezone(astz)",
+                   "retval = retval.replace(tzinfo=astz)"),
+           'aware|replace'),
+    Mutant('naive-literal-none-test', 'R8', 'benign', _I,
+           in_func('InProtocolBase.datetime_from_unicode_iso',
+                   "                if astz:\n",
+                   "                if astz is not None:\n"), None),
+    Mutant('base64-strict-alphabet', 'R9', 'fire', _B,
+           in_func('ByteArray.from_base64', "b64decode(joiner.join(value))",
+                   "b64decode(joiner.join(value), validate=True)"),
+           'strict'),
+    Mutant('base64-explicit-lenient', 'R9', 'benign', _B,
+           in_func('ByteArray.from_base64', "b64decode(joiner.join(value))",
+                   "b64decode(joiner.join(value), validate=False)"), None),
     Mutant('time-reader-is-date-reader', 'R1', 'fire', _I,
            in_func('InProtocolBase.__init__',
                    "self._from_unicode_handlers[Time] = self.time_from_unicode",
